@@ -4,7 +4,7 @@
 # A seed that the check missed when it arrived keeps that fact in our_check.first_run.
 cd "$(dirname "$0")/.."
 lanes="${1:-3}"
-ls -d seeded/*/ | sort > /tmp/seedlist.$$
+ls -d seeded/*/ | sort | grep -E "${2:-.}" > /tmp/seedlist.$$   # optional 2nd argument: regex selecting seed directories
 for lane in $(seq 0 $((lanes-1))); do
   ( i=0; while read -r d; do
       if [ $((i % lanes)) -eq $lane ]; then
